@@ -93,6 +93,7 @@ pub fn run_batch(engine: &dyn Engine, cfg: &BatchCfg, shared: Arc<Shared>) -> Ba
                 .stack_size(64 << 20)
                 .spawn_scoped(scope, move || {
                     let mut acc = Acc::new(shared);
+                    acc.known = std::sync::Arc::new(cfg.known_classes.clone());
                     loop {
                         let i = next.fetch_add(1, Ordering::Relaxed);
                         if i >= limit.load(Ordering::Relaxed) {
@@ -120,7 +121,7 @@ pub fn run_batch(engine: &dyn Engine, cfg: &BatchCfg, shared: Arc<Shared>) -> Ba
                             }
                         }
                         if let Some(v) = out.violation {
-                            if cfg.known_classes.iter().any(|k| *k == v.class) {
+                            if super::class_is_known(&cfg.known_classes, &v.class) {
                                 let mut kh = known_hits.lock().unwrap();
                                 let e = kh.entry(v.class.clone()).or_insert((0, seed));
                                 e.0 += 1;
@@ -198,6 +199,11 @@ pub fn run_batch(engine: &dyn Engine, cfg: &BatchCfg, shared: Arc<Shared>) -> Ba
     for a in accs.lock().unwrap().iter() {
         acc.merge(a);
     }
+    let mut known_hits = known_hits.into_inner().unwrap();
+    for (k, v) in &acc.known_hits {
+        let e = known_hits.entry(k.clone()).or_insert((0, 0));
+        e.0 += v;
+    }
     let mut s = samples.into_inner().unwrap();
     s.sort_by_key(|x| x.0);
     let hang_v = *hang.lock().unwrap();
@@ -210,7 +216,7 @@ pub fn run_batch(engine: &dyn Engine, cfg: &BatchCfg, shared: Arc<Shared>) -> Ba
         digest: digest.load(Ordering::Relaxed),
         wall_s: t0.elapsed().as_secs_f64(),
         found: found.into_inner().unwrap(),
-        known_hits: known_hits.into_inner().unwrap(),
+        known_hits,
         samples: s.into_iter().map(|x| x.1).collect(),
         hang: hang_v,
     }
